@@ -60,6 +60,11 @@ Definition corpus : list (string * (style * prog)) :=
      (sq, [IVar TStr (EIf (EPrim (PLEmptyQ BStr) [EListLit BStr []]) (ELit (LStr "e"))
                           (EPrim (PLNth BStr) [EListLit BStr []; EPrim (PLLen BMI) [EListLit BMI []]]));
            IStmt (SPrint [EGlob 0])]));
+    (* `iterate` out of a `try` body: the C back end emits a goto to a label of another C
+       function ("label used but not defined"), the interpreter crashes *)
+    ("iterate-out-of-try",
+     (sq, [IStmt (SFor (mi 0) (mi 1) [STry [SPrint [ELoc 0]; SIterate] [(0, [])]; SPrint [ELit (LStr "not reached")]]);
+           IStmt (SPrint [ELit (LStr "end")])]));
     (* sanity entries that must agree *)
     ("iterate-in-for",
      (sq, [IVar TMI (mi 0);
